@@ -15,6 +15,16 @@ Input classes (beyond random small codes and their single-operator corruptions):
           return type) and are not used.
           bool arrays: "binary symplectic vector or matrix / numpy.array" does not exclude them; a mismatch there is
           reported under the stable key 'validate:bool-dtype' (BOOL_FORMS; QV_C20_BOOL=0 leaves the class out).
+  REPEAT  the CALL HISTORY on one code object is an input: validate() is called 2-3 times on the SAME object (user-defined
+          subclass and BasicCode; valid codes and codes breaking each of the three conditions), interleaved with
+          accesses to stabilizers / logical_xs / logical_zs / logicals / n_k_d / label / repr and with the caller catching
+          the error; EVERY call's verdict must be the model's and the code conditions' (a check that passed or raised
+          once decides nothing about the next call's answer other than by the operators being the same).
+  CALLS   the way a DecodeResult is constructed is an input: by keyword, positionally in the documented order
+          (success, logical_commutations, recovery, custom_values) with every prefix length and every positional /
+          keyword split, with explicit None arguments, and through eval(repr(result)); all 16 None / not-None
+          combinations, success True and False, zero / non-zero recovery.  Constructible iff success or recovery is
+          given, each value stored under the documented name, repr round trip gives the same four fields.
 """
 import itertools
 import json
@@ -32,7 +42,13 @@ RULE = ('valid codes = random Clifford images of trivial [[n,k]] codes (k=1..3, 
         'logical rows with exactly one violating pair of rows at every pair of row-index classes (first, last, around '
         'multiples of 8..128); SHAPES: user-defined subclass returning 1-d / 1x2n / 2-d arrays of every integer dtype, '
         'Fortran / strided / read-only, verdict and `logicals` equal those of the canonical matrices; BasicCode '
-        'built from strings; DecodeResult over all 16 argument subsets; non-trivial = not the unmodified valid code')
+        'built from strings; REPEAT: validate() called 2-3 times on ONE code object (user subclass and BasicCode, valid '
+        'and invalid in each of the three conditions) interleaved with property accesses, every call judged against the '
+        'model and the code conditions; DecodeResult over all 16 None / not-None argument subsets x construction by '
+        'keyword / positionally in the documented order (every positional-keyword split, trailing Nones dropped or '
+        'explicit) / eval(repr(.)), success True and False, zero and non-zero recovery: constructible iff success or '
+        'recovery given, values stored under the documented names, repr round trip; non-trivial = not the unmodified '
+        'valid code')
 
 
 _USER = []
@@ -419,8 +435,181 @@ def part_shapes(ctx):
                                  dict(inp, arrays_modified=touched))
 
 
-def run(ctx):
+# ------------------------------------------------------------------------------------------ REPEAT: call histories
+
+ACCESSES = ('stabilizers', 'logical_xs', 'logical_zs', 'logicals', 'n_k_d', 'label', 'repr')
+
+
+def make_code(S, Lx, Lz, cls):
+    if cls == 'basic':
+        from qecsim.models.basic import BasicCode
+        from qecsim import paulitools as pt
+        ps = lambda M: tuple(pt.bsf_to_pauli(np.array(r)) for r in M)  # noqa: E731
+        return BasicCode(ps(S), ps(Lx), ps(Lz))
+    return build(S, Lx, Lz)
+
+
+def run_history(S, Lx, Lz, cls, steps):
+    """one code object, the steps applied in order; returns the verdict of every validate step (in order) and the
+    first problem met in an access step"""
+    code = make_code(S, Lx, Lz, cls)
+    verdicts, problem = [], None
+    for st in steps:
+        if st == 'validate':
+            verdicts.append(verdict_of(code))
+            continue
+        try:
+            got = repr(code) if st == 'repr' else getattr(code, st)
+            want = {'stabilizers': S, 'logical_xs': Lx, 'logical_zs': Lz, 'logicals': list(Lx) + list(Lz)}.get(st)
+            if want is not None and np.asarray(got).tolist() != [list(r) for r in want] and problem is None:
+                problem = '{} after {} validate() call(s) is not the matrix the code was built from'.format(st, len(verdicts))
+        except Exception as ex:
+            if problem is None:
+                problem = 'access to {} raised {!r}'.format(st, ex)
+    return verdicts, problem
+
+
+def judge_history(S, Lx, Lz, cls, steps):
+    """the property on one history: every validate() call gives the verdict of the code conditions"""
+    spec = spec_validate(S, Lx, Lz)
+    verdicts, problem = run_history(S, Lx, Lz, cls, steps)
+    for i, v in enumerate(verdicts):
+        if not agrees(v, spec):
+            d = {'what': 'validate() call #{} of {} on ONE code object ({}) gives {} but the code conditions say {} '
+                         '(verdicts of the calls in order: {})'.format(i + 1, len(verdicts), 'BasicCode' if cls == 'basic'
+                                                                     else 'user-defined StabilizerCode subclass', v, spec,
+                                                                     verdicts),
+                 'S': mat(S), 'Lx': mat(Lx), 'Lz': mat(Lz), 'class': cls, 'history': list(steps), 'verdicts': verdicts,
+                 'conditions': spec}
+            d.update(violating_pairs(S, Lx, Lz))
+            return d, verdicts
+    if problem:
+        return {'what': problem, 'S': mat(S), 'Lx': mat(Lx), 'Lz': mat(Lz), 'class': cls, 'history': list(steps)}, verdicts
+    return None, verdicts
+
+
+def part_repeat(ctx):
+    rng = ctx.rng
+    seen_fail = False
+    for S, Lx, Lz, kind in shape_codes(rng, ctx.scale(60, 600)):
+        for cls in ('user', 'basic'):
+            steps = []
+            for _ in range(rng.choice([2, 2, 3])):
+                steps += rng.sample(ACCESSES, rng.choice([0, 0, 1, 2]))
+                steps.append('validate')
+            steps += rng.sample(ACCESSES, rng.choice([0, 1]))
+            bad, verdicts = judge_history(S, Lx, Lz, cls, steps)
+            sS, sX, sZ = mat(S), mat(Lx), mat(Lz)
+            for i, v in enumerate(verdicts):
+                ctx.case('c20 validate {} {} {}'.format(sS, sX, sZ), v, nontrivial=True,
+                         meta={'history': steps, 'call': i, 'class': cls, 'kind': kind})
+            ctx.count('repeat-calls', '{} x{}'.format(cls, len(verdicts)))
+            ctx.count('repeat-verdicts', ' / '.join(verdicts))
+            if bad and not seen_fail:
+                seen_fail = True
+                what = bad.pop('what')
+                ctx.monitor_fail(what, bad)
+
+
+# ------------------------------------------------------------------------------------------ CALLS: DecodeResult
+
+DR_ORDER = ('success', 'logical_commutations', 'recovery', 'custom_values')   # documented order (model.py docstring)
+
+
+def dr_values(variant):
+    return {'success': [True, False][variant % 2], 'logical_commutations': np.array([1, 0]),
+            'recovery': [np.array([0, 1, 1, 0]), np.zeros(4, dtype=int), np.array([0, 0])][variant % 3],
+            'custom_values': np.array([3])}
+
+
+def dr_calls(given):
+    """every way of writing DecodeResult(...) for the set `given` of non-None arguments: (description, n positional,
+    explicit Nones?)"""
+    last = max([DR_ORDER.index(f) for f in given], default=-1)
+    out = []
+    for npos in range(0, 5):
+        for explicit in (False, True):
+            if npos > last + 1 and not explicit:
+                continue        # positional Nones beyond the last given argument are explicit by nature
+            out.append((npos, explicit))
+    return out
+
+
+def dr_build(given, npos, explicit, variant):
+    """returns (source text of the call, args, kwargs)"""
+    vals = dr_values(variant)
+    full = [vals[f] if f in given else None for f in DR_ORDER]
+    args = full[:npos]
+    kwargs = {f: v for f, v in zip(DR_ORDER[npos:], full[npos:]) if explicit or v is not None}
+    txt = 'DecodeResult({})'.format(', '.join([repr(a) for a in args] + ['{}={!r}'.format(k, v) for k, v in kwargs.items()]))
+    return txt, args, kwargs, full
+
+
+def same_value(a, b):
+    if a is None or b is None:
+        return a is None and b is None
+    if isinstance(a, np.ndarray) or isinstance(b, np.ndarray):
+        return isinstance(a, np.ndarray) and isinstance(b, np.ndarray) and a.shape == b.shape and np.array_equal(a, b)
+    return type(a) is type(b) and a == b
+
+
+def dr_eval(given, npos, explicit, variant, via_repr=False):
+    """(model wire value, failure description or None, call text) for one construction"""
     from qecsim.model import DecodeResult
+    from qecsim.error import QecsimError
+    txt, args, kwargs, full = dr_build(given, npos, explicit, variant)
+    should = ('success' in given) or ('recovery' in given)
+    try:
+        r = DecodeResult(*args, **kwargs)
+    except QecsimError:
+        return '0', (None if not should else 'raises QecsimError although {} given'.format(
+            ' and '.join(f for f in ('success', 'recovery') if f in given) + ' is')), txt
+    except Exception as ex:
+        return type(ex).__name__, 'raises {!r}'.format(ex), txt
+    if not should:
+        return '1', 'is built although neither success nor recovery is given', txt
+    wrong = [f for f, v in zip(DR_ORDER, full) if getattr(r, f, 'missing') is not v]
+    if wrong:
+        return 'fields-not-stored', 'stores {} (documented argument order: {})'.format(
+            ', '.join('{}={!r}'.format(f, getattr(r, f, 'missing')) for f in wrong), ', '.join(DR_ORDER)), txt
+    if via_repr:
+        src = repr(r)
+        try:
+            r2 = eval(src, {'DecodeResult': DecodeResult, 'array': np.array, 'True': True, 'False': False, 'None': None})
+        except QecsimError:
+            return 'repr-0', 'eval(repr(r)) raises QecsimError for r = {} with repr {}'.format(txt, src), src
+        except Exception as ex:
+            return 'repr-' + type(ex).__name__, 'eval(repr(r)) raises {!r}; repr {}'.format(ex, src), src
+        wrong = [f for f in DR_ORDER if not same_value(getattr(r2, f, 'missing'), getattr(r, f))]
+        if wrong:
+            return 'repr-differs', 'eval(repr(r)) differs from r in {}: repr {} gives {}'.format(
+                ', '.join(wrong), src, ', '.join('{}={!r}'.format(f, getattr(r2, f, 'missing')) for f in wrong)), src
+    return '1', None, txt
+
+
+def part_decode_result(ctx):
+    n = 0
+    for bits_ in itertools.product([False, True], repeat=4):
+        given = tuple(f for f, b in zip(DR_ORDER, bits_) if b)
+        for npos, explicit in dr_calls(given):
+            for via_repr in (False, True):
+                variant = n; n += 1
+                v, bad, txt = dr_eval(given, npos, explicit, variant, via_repr)
+                ctx.case('c20 dr {} {}'.format(int('success' in given), int('recovery' in given)), v, nontrivial=True,
+                         meta={'dr': [list(given), npos, explicit, variant, via_repr]})
+                ctx.count('decode-result', '{} positional{}{}'.format(npos, ' +None kwargs' if explicit else '',
+                                                                      ' repr' if via_repr else ''))
+                ctx.count('decode-result-verdict', v)
+                if bad:
+                    ctx.monitor_fail('{} {}'.format(txt, bad), {'call': txt, 'given': list(given), 'positional': npos,
+                                                                'documented_order': list(DR_ORDER), 'via_repr': via_repr,
+                                                                'dr': [list(given), npos, explicit, variant, via_repr]},
+                                     key=None)
+                    return
+
+
+def run(ctx):
+    from qecsim.model import DecodeResult  # noqa: F401
     from qecsim.error import QecsimError
     from qecsim.models.basic import BasicCode, FiveQubitCode, SteaneCode
     from qecsim import paulitools as pt
@@ -551,21 +740,8 @@ def run(ctx):
                                  'differing in one operator set)',
                                  {'S': mat(S2), 'Lx': mat(X2), 'Lz': mat(Z2), 'validate': v, 'conditions': spec,
                                   'history': [kk for (_, _, _, kk) in variants]})
-    # DecodeResult over all 16 argument subsets
-    for sg, lg, rg, cg in itertools.product([False, True], repeat=4):
-        kw = {}
-        if sg: kw['success'] = rng.choice([True, False])
-        if lg: kw['logical_commutations'] = np.array([1, 0])
-        if rg: kw['recovery'] = np.array([0, 1, 1, 0])
-        if cg: kw['custom_values'] = np.array([3])
-        try:
-            r = DecodeResult(**kw)
-            ok = all(getattr(r, f) is kw.get(f) for f in
-                     ('success', 'logical_commutations', 'recovery', 'custom_values'))
-            v = '1' if ok else 'fields-not-stored'
-        except QecsimError:
-            v = '0'
-        ctx.case('c20 dr {} {}'.format(int(sg), int(rg)), v, nontrivial=True)
+    part_repeat(ctx)
+    part_decode_result(ctx)
     return ctx.finish(RULE, search=search)
 
 
@@ -578,6 +754,14 @@ def search(m):
     toks = m['op'].split()
     forms = (m.get('meta') or {}).get('forms')
     P = lambda s: [[int(c) for c in r] for r in s.split('/')]  # noqa: E731
+    meta = m.get('meta') or {}
+    if toks[1] == 'validate' and meta.get('history'):
+        bad, _ = judge_history(P(toks[2]), P(toks[3]), P(toks[4]), meta.get('class', 'user'), meta['history'])
+        return bad
+    if toks[1] == 'validate' and ' then ' in str(m.get('impl')):   # two calls on one object gave two verdicts
+        bad, _ = judge_history(P(toks[2]), P(toks[3]), P(toks[4]), 'user', ['validate', 'logicals', 'validate'])
+        if bad:
+            return bad
     if toks[1] == 'validate':
         S, Lx, Lz = P(toks[2]), P(toks[3]), P(toks[4])
         impl = impl_validate(S, Lx, Lz, forms)
@@ -598,6 +782,10 @@ def search(m):
             if forms:
                 d['forms'] = forms
             return d
+    if toks[1] == 'dr' and meta.get('dr'):
+        given, npos, explicit, variant, via_repr = meta['dr']
+        v, bad, txt = dr_eval(tuple(given), npos, explicit, variant, via_repr)
+        return {'what': '{} {}'.format(txt, bad), 'call': txt, 'documented_order': list(DR_ORDER)} if bad else None
     if toks[1] == 'dr':
         return {'what': 'DecodeResult constructibility differs from "success or recovery given"', 'op': m['op'],
                 'impl': m['impl']}
@@ -613,6 +801,15 @@ def replay(ctx, path):
             r = search(mm); print('replay', mm['op'][:120], '->', str(r)[:600]); bad += bool(r)
         c = v.get('counterexample')
         i = (c or {}).get('input') or c or {}
+        if i.get('history') and i.get('S'):
+            r, vs = judge_history(P(i['S']), P(i['Lx']), P(i['Lz']), i.get('class', 'user'), i['history'])
+            print('replay history {} -> verdicts {} {}'.format(i['history'], vs, (r or {}).get('what', 'as the conditions')))
+            bad += bool(r); continue
+        if i.get('dr'):
+            given, npos, explicit, variant, via_repr = i['dr']
+            vv, r, txt = dr_eval(tuple(given), npos, explicit, variant, via_repr)
+            print('replay', txt, '->', r or 'as documented'); bad += bool(r)
+            continue
         if i.get('Lx') and i.get('Lz'):
             forms = i.get('forms')
             Lx, Lz = P(i['Lx']), P(i['Lz'])
